@@ -7,7 +7,9 @@ ids = sys.argv[1:] or sorted(d for d in os.listdir(base) if os.path.exists(f'{ba
 out = {}
 for sid in ids:
     m = json.load(open(f'{base}/{sid}/meta.json'))
-    checks = sorted(set(m['caught_by']) | {m['property']})
+    # one catching check per seed (its own property's check when that one catches it)
+    cb = m['caught_by']
+    checks = [m['property']] if m['property'] in cb or not cb else [cb[0]]
     r = subprocess.run(['python3', '/verif/tools/seed_eval.py', 'detect', sid] + checks, capture_output=True, text=True)
     det = json.load(open(f'{base}/{sid}/detection.json'))['quick']
     out[sid] = {c: {'exit': det[c]['exit'], 'violations': det[c]['violations']} for c in checks}
